@@ -529,7 +529,9 @@ export class TypeGen {
     if (!gens.length) return this.leaf();
     const g = this.rng.pick(gens);
     // (a union of scalars now and then: conditional types over the parameter distribute over it)
-    return A.ref(g.name, g.params.map(() => (this.rng.chance(0.2) ? A.union([this.scalarLeaf(), this.scalarLeaf(), A.lit("a")]) : this.rng.chance(0.7) ? this.scalarLeaf() : this.type(Math.min(1, depth - 1)))));
+    const namedUnions = [...this.namesOf(["strLits", "scalarUnion"]), ...this.decls.filter((d) => d.d === "enum").map((d) => d.name)];
+    const special = () => (namedUnions.length && this.rng.chance(0.6) ? A.ref(this.rng.pick(namedUnions)) : this.rng.chance(0.7) ? A.kw("boolean") : A.kw("never"));
+    return A.ref(g.name, g.params.map(() => (this.rng.chance(0.12) ? special() : this.rng.chance(0.2) ? A.union([this.scalarLeaf(), this.scalarLeaf(), A.lit("a")]) : this.rng.chance(0.7) ? this.scalarLeaf() : this.type(Math.min(1, depth - 1)))));
   }
   // a type guaranteed to evaluate in the reference (re-draws on Unsupported)
   goodType(depth) {
